@@ -77,6 +77,14 @@ def _template_cases():
                 p = T.counter_loop(lim, True, gk, ex)
                 n = len(p["nodes"])
                 yield ("loop", p, {"count": 0}, [None, list(range(n - 1, -1, -1))])
+    same = T.prog(
+        [
+            T.fn("draft", ["e0"], ["text", "outline"]),
+            T.fn("refine", ["e0", "outline"], ["text"], defaults={"outline": ["dflt", "outline"]}),
+            T.fn("snap", ["text"], ["s0"]),
+        ]
+    )
+    yield ("same-name-ordered-producers", same, ins, [None])
     yield ("nested", T.nested_fanout(), ins, [None, [3, 2, 1, 0]])
     yield ("nested2", T.nested_depth(2), {"x": ["prov", "x"]}, [None])
     yield ("two-nested", T.two_nested(), {"x": ["prov", "x"]}, [None, [2, 1, 0]])
@@ -151,7 +159,7 @@ def snapshot_violations(h, prog_specs):
     return out
 
 
-def check_case(acc, family, prog, inputs, order, faults, tier, witness_base, base=None):
+def check_case(acc, family, prog, inputs, order, faults, tier, witness_base, base=None, max_iterations=None):
     """Sync reference, then all async schedules x concurrency limits.  ``base`` = (view, calls) of the sync run
     with the identity node order: non-failing runs must agree with it under every node-list order."""
     eh = "continue" if faults else "raise"
@@ -162,7 +170,7 @@ def check_case(acc, family, prog, inputs, order, faults, tier, witness_base, bas
         ap["order"] = list(order)
     fset = set(faults) if faults else None
     h0 = H(fault=fset)
-    x0 = execute(sp, inputs, runner="sync", h=h0, error_handling=eh)
+    x0 = execute(sp, inputs, runner="sync", h=h0, error_handling=eh, max_iterations=max_iterations)
     acc.evaluations += 1
     acc.traces += 1
     ref = x0.view()
@@ -177,7 +185,7 @@ def check_case(acc, family, prog, inputs, order, faults, tier, witness_base, bas
 
         def run(ch):
             h = H(ch, suspend=True, fault=fset)
-            x = execute(ap, inputs, runner="async", chooser=ch, h=h, error_handling=eh, max_concurrency=mc)
+            x = execute(ap, inputs, runner="async", chooser=ch, h=h, error_handling=eh, max_concurrency=mc, max_iterations=max_iterations)
             return x
 
         for ch, x in explore(run, bound=bound, max_execs=5000, stats=stats):
@@ -189,7 +197,7 @@ def check_case(acc, family, prog, inputs, order, faults, tier, witness_base, bas
                     acc.transitions += 1
                     acc.states.add(hk((witness_base["case"], mc, tuple(sorted(released)), p[1])))
                     released.append(p[1][p[3]])
-            w = {**witness_base, "runner": "async", "max_concurrency": mc, "choices": ch.choices}
+            w = {**witness_base, "runner": "async", "max_concurrency": mc, "choices": ch.choices, "max_iterations": max_iterations}
             for m in _compare(ref, ref_calls, x, faults):
                 acc.violation(m[0], w, m[1], size=len(ch.choices) * 10 + ch.deviations + len(repr(prog)))
             for m in snapshot_violations(x.h, None):
@@ -238,6 +246,12 @@ def run_shard(shard):
                 if len(acc.samples) < 1 and faults:
                     acc.sample(wb)
                 check_case(acc, family, prog, inputs, order, faults, tier, wb, base)
+                if family == "loop" and not faults and order is None:
+                    # the iteration cap at, just below and just above the number of supersteps the run needs
+                    need = len([t for t in hb.steps if t.depth == 0])
+                    for mi in sorted({max(1, need - 1), need, need + 1}):
+                        acc.key((case, "max_iterations", mi))
+                        check_case(acc, family, prog, inputs, order, faults, tier, {**wb, "max_iterations": mi}, None, max_iterations=mi)
     return acc
 
 
@@ -259,7 +273,7 @@ def replay(rep):
         sp["order"] = ap["order"] = rep["order"]
     fset = set(faults) if faults else None
     h0 = H(fault=fset)
-    x0 = execute(sp, rep["inputs"], runner="sync", h=h0, error_handling=eh)
+    x0 = execute(sp, rep["inputs"], runner="sync", h=h0, error_handling=eh, max_iterations=rep.get("max_iterations"))
     msgs = list(snapshot_violations(h0, None))
     if not faults:
         hb = H()
@@ -269,7 +283,7 @@ def replay(rep):
     if rep["runner"] == "async":
         def run(ch):
             h = H(ch, suspend=True, fault=fset)
-            return execute(ap, rep["inputs"], runner="async", chooser=ch, h=h, error_handling=eh, max_concurrency=rep.get("max_concurrency"))
+            return execute(ap, rep["inputs"], runner="async", chooser=ch, h=h, error_handling=eh, max_concurrency=rep.get("max_concurrency"), max_iterations=rep.get("max_iterations"))
 
         ch, x = run_once(run, rep["choices"])
         msgs += [m for _, m in _compare(x0.view(), _calls(h0), x, faults)]
